@@ -6,8 +6,12 @@
    A leaf (one index per label) denotes exactly the child whose label values are those declared along the path. *)
 EXTENDS Integers, Sequences, FiniteSets, TLC, Json
 CONSTANTS MaxLabels, MaxVals
-ValDef == [renamed : BOOLEAN]
-LabelDef == [enum : BOOLEAN, vals : UNION {[1..k -> ValDef] : k \in 1..MaxVals}]
+\* kind of a declared value: "plain" (the label value is the field name), "renamed" (field: "other string"), or "alias"
+\* (a second field name for the SAME label value as the previous field, e.g.  ok: "success", success: "success")
+ValDef == [kind : {"plain", "renamed", "alias"}]
+LabelDef == {l \in [enum : BOOLEAN, vals : UNION {[1..k -> ValDef] : k \in 1..MaxVals}] :
+               /\ l.vals[1].kind # "alias"
+               /\ \A j \in 2..Len(l.vals) : l.vals[j].kind = "alias" => j = Len(l.vals)}
 Perms(n) == {p \in [1..n -> 1..n] : \A i, j \in 1..n : i # j => p[i] # p[j]}
 VARIABLES labels, perm
 Init == \E n \in 1..MaxLabels : labels \in [1..n -> LabelDef] /\ perm \in Perms(n)
@@ -17,16 +21,20 @@ N == Len(labels)
 LabelName(i) == <<"l", i>>
 FieldName(i, j) == <<"f", i, j>>
 \* the label VALUE a field stands for
-ValueOf(i, j) == IF labels[i].vals[j].renamed THEN <<"v", i, j>> ELSE FieldName(i, j)
+Root(i, j) == IF labels[i].vals[j].kind = "alias" THEN j - 1 ELSE j          \* the field whose value an alias repeats
+ValueOf(i, j) == LET r == Root(i, j) IN IF labels[i].vals[r].kind = "renamed" THEN <<"v", i, r>> ELSE FieldName(i, r)
 Leaves == {p \in [1..N -> 1..MaxVals] : \A i \in 1..N : p[i] <= Len(labels[i].vals)}
 \* Target: the label-name |-> value map of the child a leaf denotes
 Target(p) == {<<LabelName(i), ValueOf(i, p[i])>> : i \in 1..N}
 \* accessors address exactly the declared values: distinct leaves denote distinct children, and every combination of
 \* declared values is denoted by a leaf
-Bijective == /\ \A p, q \in Leaves : Target(p) = Target(q) => p = q
-             /\ Cardinality({Target(p) : p \in Leaves}) = Cardinality(Leaves)
+Canon(p) == [i \in 1..N |-> Root(i, p[i])]
+Bijective == /\ \A p, q \in Leaves : Target(p) = Target(q) <=> Canon(p) = Canon(q)       \* equal children exactly for aliases
+             /\ Cardinality({Target(p) : p \in Leaves}) = Cardinality({Canon(p) : p \in Leaves})
 \* try_get(str) resolves a declared VALUE (not a field name) to its field; anything else is None
-TryGet(i, s) == IF \E j \in DOMAIN labels[i].vals : ValueOf(i, j) = s THEN CHOOSE j \in DOMAIN labels[i].vals : ValueOf(i, j) = s ELSE 0
-TryGetExact == \A i \in 1..N : \A j \in DOMAIN labels[i].vals : TryGet(i, ValueOf(i, j)) = j
+TryGet(i, s) == IF \E j \in DOMAIN labels[i].vals : ValueOf(i, j) = s
+                THEN CHOOSE j \in DOMAIN labels[i].vals : ValueOf(i, j) = s /\ \A k \in 1..(j - 1) : ValueOf(i, k) # s ELSE 0
+\* try_get resolves a declared value to a field that denotes the same child
+TryGetExact == \A i \in 1..N : \A j \in DOMAIN labels[i].vals : Root(i, TryGet(i, ValueOf(i, j))) = Root(i, j)
 Emit == PrintT(<<"CASE", ToJson([labels |-> labels, perm |-> perm, leaves |-> Cardinality(Leaves)])>>)
 =============================================================================
